@@ -12,10 +12,10 @@
 
    The full statement "Inv is preserved by EVERY operation" is false of the faithful model (and of
    hl7apy): C10_step_refuted (F8: re-attaching a listed element, adding a child twice, clearing the
-   parent of a listed element; F20: assigning a datatype object over an existing child).
+   parent of a listed element).
    C10_step_partial proves preservation - for successful AND raising calls, all heaps, all
-   operations - under `op_safe`: element arguments are detached, no datatype-object values, an
-   element is not assigned through a positional path.  *)
+   operations - under `op_safe`: element arguments are detached and an element is not assigned
+   through a positional path.  *)
 From Coq Require Import List Bool Arith Lia ZArith NArith Init.Byte.
 From HL7 Require Import Lib.Str Model.Ec Model.Result Model.Ref Model.Tree Model.Leaf Model.Heap Gen.Params.
 From HL7 Require Import Proofs.HeapFacts Proofs.HeapInv Proofs.HeapOps Proofs.HeapSteps Proofs.HeapStep.
@@ -105,7 +105,7 @@ Proof.
 Qed.
 Print Assumptions C10_traversal_unlisted.
 
-(* ---------- the full statement is false: F8 and F20 in the model (v2.5 tables) ---------- *)
+(* ---------- the full statement is false: F8 in the model (v2.5 tables) ---------- *)
 
 Definition t25 := Gen.Tables_v2_5.tables.
 Definition e25 : ec := mk_ec "|" "^" "~" "\" "&" None.
@@ -161,18 +161,18 @@ Proof.
 Qed.
 Print Assumptions C10_step_refuted_parent_none.
 
-(* F20  s.pid_8 = 'A'; s.pid_8 = IS('B'): the new field is listed twice *)
+(* F20 (fixed by b690ba1): s.pid_8 = 'A'; s.pid_8 = IS('B') - the element for a datatype object is now
+   built detached and attached like any other child; datatype-object values are covered by
+   C10_step_partial (op_safe no longer excludes them).  The old witness now keeps the invariant and
+   replaces in place: *)
 Definition w_prefix3 : list op := [ONewSeg TOLERANT "PID"; OSetAttr 0 pid8 (HText "A")].
-Theorem C10_step_refuted_datatype_object :
-  RInv (run25 w_prefix3) /\
-  ~ RInv (fst (fst (step t25 e25 le25 true (run25 w_prefix3) (OSetAttr 0 pid8 (HDt "IS" "B"))))).
+Example C10_datatype_object_instance :
+  RInv (run25 (w_prefix3 ++ [OSetAttr 0 pid8 (HDt "IS" "B")])) /\
+  to_er7 t25 e25 (r_store (run25 (w_prefix3 ++ [OSetAttr 0 pid8 (HDt "IS" "B")]))) 0 false = unbs "PID||||||||B".
 Proof.
-  split.
-  - apply C10_reachable_partial_hl7apy; [vm_compute; repeat split|solve_safe].
-  - intros [I _]. pose proof (I_nodup _ I 0) as H. vm_compute in H.
-    inversion H as [|? ? Hn _]. apply Hn. now left.
+  split; [|vm_compute; reflexivity].
+  apply C10_reachable_partial_hl7apy; [vm_compute; repeat split|solve_safe].
 Qed.
-Print Assumptions C10_step_refuted_datatype_object.
 
 (* the hypotheses of the partial theorems are satisfiable: a history with an assignment, a lazy
    traversal, a replacement, a rejected assignment and a deletion meets hist_safe and hist_plain *)
